@@ -615,6 +615,16 @@ def canon_int(t):
             return ('bin', '%', t[2][0], t[2][1])
         if c in ('torch.as_tensor', 'torch.tensor') and len(t[2]) == 1 and not t[3]:
             return t[2][0]
+        if c in ('builtins.float', 'builtins.int') and len(t[2]) == 1 and \
+                t[2][0][0] == 'bin' and t[2][0][1] in ('//', '%'):
+            return t[2][0]
+    if t and t[0] == 'ifexp':
+        # a dispatch on the type of the operand (number / tensor) with the same formula on
+        # both arms
+        c = t[1][2] if (t[1][0] == 'un' and t[1][1] == 'not') else t[1]
+        if c[0] == 'call' and (callee(c) or '') in ('builtins.isinstance', 'torch.is_tensor') \
+                and t[2] == t[3]:
+            return t[2]
     return t
 
 
